@@ -1,5 +1,6 @@
 import WindVerif.Proofs.TmpPool
 import WindVerif.Proofs.FilePoolFail
+import WindVerif.Proofs.TmpPoolCtx
 /-!
 # C20 — TmpPool and FilePool leave nothing behind
 
@@ -155,5 +156,122 @@ example : (rounds 2 (fpCreate (fpEnter (FP.new [10, 11] [10])).1 10)).1 =
 /-- a path given twice: the handle that is overwritten in the dict is leaked although `open()` succeeded -/
 example : run (FP.new [10, 10] []) [.enter, .exit] =
     { files := [10, 10], missing := [], mapping := none, openH := [0], leaked := [(10, 0)], next := 2 } := by decide
+
+end WindVerif.C20
+
+/-!
+### TmpPool: entering and leaving the context as steps of the history (repair D21)
+
+Model `Model/TmpPoolCtx.lean`, proofs `Proofs/TmpPoolCtx.lean`.  The history starts at the constructed pool (`Pool.new`: one
+empty list, the owner references it); `enter` / `exit` are operations (`COp`, `applyC mp`, `runC mp`; `mp` is the pool's
+`multi_proc` flag).  With `multi_proc`, `__enter__` rebinds the owner's list to a NEW manager list holding a copy of the old
+content (`enter`; before the repair the new list was empty: `enterFresh`), `__exit__` flushes and rebinds the owner's list to a
+new empty list.  `EnterAlone ops`: no `enter` / `exit` after a `fork` (the context is entered and left by a lone owner; children
+are forked inside it).  `InvC` is `Inv` with "list object 0" replaced by "the owner's list object".
+-/
+namespace WindVerif.C20
+open WindVerif.TmpPool WindVerif.TmpPoolCtx
+
+/-- entering the context changes neither what the pool lists nor the disk -/
+theorem enter_listing (mp : Bool) (s : Pool) (l : List Path) (h : s.listOf 0 = some l) :
+    (enter mp s).listOf 0 = some l ∧ (enter mp s).fs = s.fs := by
+  first | exact WindVerif.TmpPoolCtx.enter_listing .. | (apply WindVerif.TmpPoolCtx.enter_listing <;> assumption)
+
+theorem invC_new : InvC Pool.new := by
+  first | exact WindVerif.TmpPoolCtx.invC_new .. | (apply WindVerif.TmpPoolCtx.invC_new <;> assumption)
+
+/-- the old invariant (one list object, every reference 0) is a special case of `InvC` -/
+theorem invC_of_inv {s : Pool} (h : Inv s) : InvC s := by
+  first | exact WindVerif.TmpPoolCtx.invC_of_inv .. | (apply WindVerif.TmpPoolCtx.invC_of_inv <;> assumption)
+
+/-- every operation keeps the invariant; `enter` / `exit` when the owner is the only process -/
+theorem invC_step (mp : Bool) (s : Pool) (op : COp) (h : InvC s)
+    (hc : op = .enter ∨ op = .exit → s.refs.length = 1) : InvC (applyC mp s op) := by
+  first | exact WindVerif.TmpPoolCtx.invC_step .. | (apply WindVerif.TmpPoolCtx.invC_step <;> assumption)
+
+theorem invC_run (mp : Bool) (ops : List COp) (ha : EnterAlone ops) : InvC (runC mp Pool.new ops) := by
+  first | exact WindVerif.TmpPoolCtx.invC_run .. | (apply WindVerif.TmpPoolCtx.invC_run <;> assumption)
+
+/-- after any history without outside interference in which the context is entered / left only by a lone owner, the pool
+lists exactly the existing files -/
+theorem listed_eq_existing_ctx (mp : Bool) (ops : List COp) (ha : EnterAlone ops) (hn : NoUnlinkC ops) :
+    ∃ l, (runC mp Pool.new ops).listOf 0 = some l ∧ ∀ p, p ∈ l ↔ p ∈ (runC mp Pool.new ops).fs := by
+  first | exact WindVerif.TmpPoolCtx.listed_eq_existing_ctx .. | (apply WindVerif.TmpPoolCtx.listed_eq_existing_ctx <;> assumption)
+
+/-- `__exit__` in any consistent state succeeds: nothing is left on disk; the owner and every other process list nothing -/
+theorem exitCtx_nothing_left (mp : Bool) {s : Pool} (h : InvC s) :
+    ∃ s', exitCtx mp s = .ok s' ∧ s'.fs = [] ∧ s'.listOf 0 = some [] ∧
+      s'.refs.length = s.refs.length ∧ ∀ pid, pid < s.refs.length → s'.listOf pid = some [] := by
+  first | exact WindVerif.TmpPoolCtx.exitCtx_nothing_left .. | (apply WindVerif.TmpPoolCtx.exitCtx_nothing_left <;> assumption)
+
+/-- after any history in which the context is entered / left only by a lone owner (files created before `__enter__`, children
+forked inside the context creating files, files deleted from outside, an earlier `exit`, …): `__exit__` succeeds, no file of
+the pool exists and nothing is listed -/
+theorem nothing_left_exit_ctx (mp : Bool) (ops : List COp) (ha : EnterAlone ops) :
+    ∃ s', exitCtx mp (runC mp Pool.new ops) = .ok s' ∧ s'.fs = [] ∧ s'.listOf 0 = some [] := by
+  first | exact WindVerif.TmpPoolCtx.nothing_left_exit_ctx .. | (apply WindVerif.TmpPoolCtx.nothing_left_exit_ctx <;> assumption)
+
+/-- D21: files created before the context is entered are removed when it is left (`n` files before, `m` after) -/
+theorem created_before_enter_removed (mp : Bool) (n m : Nat) :
+    ∃ s', exitCtx mp (runC mp Pool.new
+        (List.replicate n (.create 0) ++ [.enter] ++ List.replicate m (.create 0))) = .ok s' ∧
+      s'.fs = [] ∧ s'.listOf 0 = some [] := by
+  first | exact WindVerif.TmpPoolCtx.created_before_enter_removed .. | (apply WindVerif.TmpPoolCtx.created_before_enter_removed <;> assumption)
+
+/-- … and before it is left these files are exactly the listed ones -/
+theorem created_before_enter_listed (mp : Bool) (n m : Nat) :
+    ∃ l, (runC mp Pool.new (List.replicate n (.create 0) ++ [.enter] ++ List.replicate m (.create 0))).listOf 0 = some l ∧
+      ∀ p, p ∈ l ↔ p ∈ (runC mp Pool.new
+        (List.replicate n (.create 0) ++ [.enter] ++ List.replicate m (.create 0))).fs := by
+  first | exact WindVerif.TmpPoolCtx.created_before_enter_listed .. | (apply WindVerif.TmpPoolCtx.created_before_enter_listed <;> assumption)
+
+/-- the defect D21 (pre-repair `__enter__`), concrete: a `multi_proc` pool, a file is created, `enterFresh`, then the owner's
+flush (what `__exit__` does): the file is not listed after `enterFresh` and still exists at the end -/
+theorem enterFresh_forgets :
+    let s1 := enterFresh true (runC true Pool.new [.create 0])
+    s1.listOf 0 = some [] ∧ s1.fs = [0] ∧
+      ∃ s', s1.flush 0 = .ok s' ∧ s'.fs = [0] ∧ s'.listOf 0 = some [] := by
+  first | exact WindVerif.TmpPoolCtx.enterFresh_forgets .. | (apply WindVerif.TmpPoolCtx.enterFresh_forgets <;> assumption)
+
+/-- the defect D21 in general: whatever was listed is forgotten by the pre-repair `__enter__` and stays on disk -/
+theorem enterFresh_forgets_general (s : Pool) (l : List Path) (h : s.listOf 0 = some l) (hne : l ≠ []) :
+    (enterFresh true s).listOf 0 = some [] ∧ (enterFresh true s).listOf 0 ≠ s.listOf 0 ∧
+      (enterFresh true s).fs = s.fs := by
+  first | exact WindVerif.TmpPoolCtx.enterFresh_forgets_general .. | (apply WindVerif.TmpPoolCtx.enterFresh_forgets_general <;> assumption)
+
+/-- a documented limit: the context entered while a child exists.  The child keeps the old list object; the file it creates
+is not seen by the owner's `__exit__` and stays on disk -/
+theorem enter_with_child_splits :
+    let s := runC true Pool.new [.fork 0, .enter, .create 1]
+    s.listOf 0 = some [] ∧ s.listOf 1 = some [0] ∧ ∃ s', exitCtx true s = .ok s' ∧ s'.fs = [0] := by
+  first | exact WindVerif.TmpPoolCtx.enter_with_child_splits .. | (apply WindVerif.TmpPoolCtx.enter_with_child_splits <;> assumption)
+
+/-- histories without `enter` / `exit` are the histories of `run` (so the theorems above extend the old ones) -/
+theorem runC_ofOp (mp : Bool) (s : Pool) (ops : List Op) : runC mp s (ops.map COp.ofOp) = run s ops := by
+  first | exact WindVerif.TmpPoolCtx.runC_ofOp .. | (apply WindVerif.TmpPoolCtx.runC_ofOp <;> assumption)
+
+/-- non-vacuity: an `EnterAlone` history without `unlink`: a file before the context, forks after the enter, files created by
+the children, a flush by a child, a failing `remove`; its state, and the state after `__exit__` -/
+example : EnterAlone [.create 0, .enter, .fork 0, .create 1, .fork 1, .create 2, .remove 1 0, .create 0, .remove 2 7] ∧
+    NoUnlinkC [.create 0, .enter, .fork 0, .create 1, .fork 1, .create 2, .remove 1 0, .create 0, .remove 2 7] := by decide
+example : (runC true Pool.new [.create 0, .enter, .fork 0, .create 1, .fork 1, .create 2, .remove 1 0, .create 0,
+      .remove 2 7]).fs = [1, 2, 3] ∧
+    (runC true Pool.new [.create 0, .enter, .fork 0, .create 1, .fork 1, .create 2, .remove 1 0, .create 0,
+      .remove 2 7]).listOf 0 = some [1, 2, 3] ∧
+    (runC true Pool.new [.create 0, .enter, .fork 0, .create 1, .fork 1, .create 2, .remove 1 0, .create 0,
+      .remove 2 7]).refs = [1, 1, 1] := by decide
+/-- a pool that is entered, left and entered again, children only in the last round -/
+example : EnterAlone [.create 0, .enter, .create 0, .exit, .create 0, .enter, .fork 0, .create 1, .unlink 2] := by decide
+example : (runC true Pool.new [.create 0, .enter, .create 0, .exit, .create 0, .enter, .fork 0, .create 1, .unlink 2]).fs = [3] ∧
+    (runC true Pool.new [.create 0, .enter, .create 0, .exit, .create 0, .enter, .fork 0, .create 1, .unlink 2]).listOf 1 =
+      some [2, 3] := by decide
+/-- `enter` after a `fork` is not `EnterAlone` (the history of `enter_with_child_splits`) -/
+example : ¬ EnterAlone [.fork 0, .enter, .create 1] := by decide
+/-- the side condition of `invC_step` on a concrete state, and the hypothesis of `enter_listing` -/
+example : (runC true Pool.new [.create 0, .create 0]).refs.length = 1 ∧
+    (runC true Pool.new [.create 0, .create 0]).listOf 0 = some [0, 1] := by decide
+/-- D21 for two files before and two after the enter: all four exist before `__exit__` -/
+example : (runC true Pool.new (List.replicate 2 (.create 0) ++ [.enter] ++ List.replicate 2 (.create 0))).fs = [0, 1, 2, 3] := by
+  decide
 
 end WindVerif.C20
